@@ -6,6 +6,7 @@ import (
 	"context"
 	"fmt"
 	"os"
+	"regexp"
 	"runtime"
 	"strings"
 	"sync"
@@ -13,7 +14,6 @@ import (
 	"testing"
 	"time"
 
-	"github.com/codenotary/immudb/embedded/appendable/multiapp"
 	"github.com/codenotary/immudb/embedded/logger"
 	"github.com/codenotary/immudb/embedded/store"
 
@@ -25,7 +25,7 @@ import (
 const (
 	kfF2       = "F2-exporttx-partial-truncation-leaks-lock"
 	kfDeadlock = "K14a-concurrent-truncation-vlog-lock-order"
-	kfReadAt   = "K14b-multiapp-readat-spurious-key-not-found"
+	kfInflight = "K14c-truncation-deletes-values-of-inflight-tx"
 )
 
 func TestMain(m *testing.M) {
@@ -48,7 +48,7 @@ func TestMain(m *testing.M) {
 		Probes: []vk.Probe{
 			{ID: kfF2, Present: probeF2},
 			{ID: kfDeadlock, Present: probeDeadlock},
-			{ID: kfReadAt, Present: probeReadAt},
+			{ID: kfInflight, Present: probeInflight},
 		},
 	})
 }
@@ -66,10 +66,13 @@ const liveness = 30 * time.Second
 func boundedMarker(fn func()) { fn() }
 
 // bounded runs every fn in its own goroutine and waits up to the liveness bound for all of them.
-// When parked is non-empty and the caller guarantees that nothing else is running inside the
-// store, the wait ends early once every unfinished goroutine is seen parked in that frame on two
-// looks 300 ms apart (nobody is left who could wake them): this only shortens the time to report
-// a hang that the full bound would report as well.
+//
+// When parked is non-empty the wait may end early, only to shorten the time to report a hang that the full bound
+// would report as well: on 8 consecutive looks 300 ms apart (a) every unfinished goroutine of the call is parked
+// in a lock wait (sync.Mutex / sync.Cond / sync.RWMutex) below the frame `parked`, with an unchanged stack, and
+// (b) no goroutine of the process that has an immudb frame on its stack is running, runnable or in a system call —
+// i.e. nobody who could still release a lock is making progress (lock holders inside immudb do I/O or wait for
+// other locks; none of them sleeps or selects while holding a value-log lock or the export mutex).
 func bounded(parked string, fns ...func()) (finished bool) {
 	var left atomic.Int32
 	left.Store(int32(len(fns)))
@@ -89,7 +92,7 @@ func bounded(parked string, fns ...func()) (finished bool) {
 				hdr := strings.Fields(string(b[:runtime.Stack(b[:], false)]))
 				if len(hdr) > 1 {
 					idMu.Lock()
-					ids["goroutine "+hdr[1]+" ["] = true
+					ids[hdr[1]] = true
 					idMu.Unlock()
 				}
 			}
@@ -103,7 +106,7 @@ func bounded(parked string, fns ...func()) (finished bool) {
 		return true
 	case <-time.After(50 * time.Millisecond):
 	}
-	seen := 0
+	seen, lastSig := 0, ""
 	for {
 		select {
 		case <-done:
@@ -115,11 +118,12 @@ func bounded(parked string, fns ...func()) (finished bool) {
 				continue
 			}
 			idMu.Lock()
-			n := markersParkedIn(parked, ids)
+			n, active, sig := lookAtGoroutines(parked, ids)
 			idMu.Unlock()
-			if n > 0 && n == int(left.Load()) {
+			if n > 0 && n == int(left.Load()) && !active && (seen == 0 || sig == lastSig) {
 				seen++
-				if seen >= 2 {
+				lastSig = sig
+				if seen >= 8 {
 					select {
 					case <-done:
 						return true
@@ -134,21 +138,34 @@ func bounded(parked string, fns ...func()) (finished bool) {
 	}
 }
 
-func markersParkedIn(frame string, ids map[string]bool) int {
-	buf := make([]byte, 4<<20)
+var addrRe = regexp.MustCompile(`\(0x[^)]*\)|\+0x[0-9a-f]+`)
+
+// lookAtGoroutines: how many goroutines of `ids` are parked in a lock wait below `frame` (with their stacks as a
+// signature), and whether any other goroutine with an immudb frame is running / runnable / in a system call.
+func lookAtGoroutines(frame string, ids map[string]bool) (parked int, active bool, sig string) {
+	buf := make([]byte, 8<<20)
 	n := runtime.Stack(buf, true)
-	cnt := 0
 	for _, g := range strings.Split(string(buf[:n]), "\n\n") {
-		sp := strings.Index(g, "[")
-		if sp < 0 || !ids[g[:sp+1]] {
+		var id, state string
+		if f := strings.Fields(g); len(f) > 2 && f[0] == "goroutine" {
+			id = f[1]
+		}
+		if i, j := strings.Index(g, "["), strings.Index(g, "]"); i >= 0 && j > i {
+			state = strings.TrimSpace(strings.Split(g[i+1:j], ",")[0])
+		}
+		lockWait := state == "sync.Mutex.Lock" || state == "sync.Cond.Wait" || state == "sync.RWMutex.Lock" || state == "sync.RWMutex.RLock"
+		if ids[id] {
+			if lockWait && strings.Contains(g, frame) {
+				parked++
+				sig += addrRe.ReplaceAllString(g, "") + "\n"
+			}
 			continue
 		}
-		if strings.Contains(g, "c14.boundedMarker") && strings.Contains(g, frame) &&
-			(strings.Contains(g, "[sync.Mutex.Lock") || strings.Contains(g, "[sync.Cond.Wait") || strings.Contains(g, "[semacquire")) {
-			cnt++
+		if strings.Contains(g, "codenotary/immudb") && (state == "running" || state == "runnable" || state == "syscall") {
+			active = true
 		}
 	}
-	return cnt
+	return parked, active, sig
 }
 
 // ---------------------------------------------------------------------------
@@ -255,46 +272,72 @@ func probeDeadlock() (bool, string) {
 	return false, ""
 }
 
-// probeReadAt: a log of 60 chunks opened with MaxOpenedFiles=1, four goroutines reading single chunks.
-// multiapp.appendableFor inserts the freshly opened chunk into the SIEVE cache, drops the mutex and looks it up
-// again; a Put by another reader (or by the writer rotating chunks) in between evicts it and the lookup error
-// ("key not found") is returned to the caller of ReadAt.
-func probeReadAt() (bool, string) {
-	dir := vk.Dir()
-	defer os.RemoveAll(dir)
-	app, err := multiapp.Open(dir, multiapp.DefaultOptions().WithFileSize(64).WithMaxOpenedFiles(1).WithFileExt("val"))
+// probeInflight: a replica receives transactions 1..7 (one 50-byte value each, FileSize 64) through concurrent
+// ReplicateTx calls: the call for tx 7 runs first, appends its value and waits for its predecessors; txs 1..5 are
+// replicated and committed; TruncateUptoTx(5) runs (it only looks at committed transactions: everything before the
+// value of tx 5 goes, including the value of tx 7); then tx 6 arrives and tx 7 commits — its value is gone.
+func probeInflight() (bool, string) {
+	pdir, rdir := vk.Dir(), vk.Dir()
+	defer os.RemoveAll(pdir)
+	defer os.RemoveAll(rdir)
+	primary, err := store.Open(pdir, probeOpts(1<<20, 1))
 	if err != nil {
 		return false, ""
 	}
-	defer app.Close()
-	for i := 0; i < 61; i++ {
-		if _, _, err := app.Append(bytes.Repeat([]byte{byte(i)}, 64)); err != nil {
+	defer primary.Close()
+	var exports [][]byte
+	for i := 0; i < 7; i++ {
+		hdr, err := stx.Commit(primary, []stx.Entry{{Key: []byte("k"), Value: bytes.Repeat([]byte{byte('a' + i)}, 50)}}, false)
+		if err != nil {
+			return false, ""
+		}
+		b, err := primary.ExportTx(hdr.ID, false, false, store.NewTx(primary.MaxTxEntries(), primary.MaxKeyLen()))
+		if err != nil {
+			return false, ""
+		}
+		exports = append(exports, b)
+	}
+	fs := fsim.New(rdir)
+	replica, err := store.Open(rdir, probeOpts(64, 1).WithAppFactory(fs.Factory()))
+	if err != nil {
+		return false, ""
+	}
+	defer replica.Close()
+	done7 := make(chan error, 1)
+	go func() {
+		_, err := replica.ReplicateTx(context.Background(), exports[6], false, false)
+		done7 <- err
+	}()
+	for t0 := time.Now(); valAppends(fs) < 1; time.Sleep(100 * time.Microsecond) {
+		if time.Since(t0) > 30*time.Second {
 			return false, ""
 		}
 	}
-	app.Flush()
-	var hits atomic.Int64
-	var first atomic.Value
-	var wg sync.WaitGroup
-	for g := 0; g < 4; g++ {
-		wg.Add(1)
-		go func(g int) {
-			defer wg.Done()
-			x := uint32(g*7919 + 1)
-			buf := make([]byte, 8)
-			for i := 0; i < 2500 && hits.Load() == 0; i++ {
-				x = x*1664525 + 1013904223
-				c := int64(x>>8) % 60
-				if _, err := app.ReadAt(buf, c*64+3); err != nil {
-					hits.Add(1)
-					first.Store(fmt.Sprintf("ReadAt(8 bytes at chunk %d) = %v", c, err))
-				}
-			}
-		}(g)
+	for i := 0; i < 5; i++ {
+		if _, err := replica.ReplicateTx(context.Background(), exports[i], false, false); err != nil {
+			return false, ""
+		}
 	}
-	wg.Wait()
-	if hits.Load() > 0 {
-		return true, fmt.Sprintf("60 full chunks, MaxOpenedFiles=1, 4 concurrent readers of existing data: %v", first.Load())
+	if err := replica.TruncateUptoTx(5); err != nil {
+		return false, ""
+	}
+	if _, err := replica.ReplicateTx(context.Background(), exports[5], false, false); err != nil {
+		return false, ""
+	}
+	select {
+	case err := <-done7:
+		if err != nil {
+			return false, ""
+		}
+	case <-time.After(30 * time.Second):
+		return false, ""
+	}
+	tx := store.NewTx(replica.MaxTxEntries(), replica.MaxKeyLen())
+	if err := replica.ReadTx(7, false, tx); err != nil {
+		return true, "ReadTx(7): " + err.Error()
+	}
+	if v, err := replica.ReadValue(tx.Entries()[0]); err != nil || !bytes.Equal(v, bytes.Repeat([]byte{'g'}, 50)) {
+		return true, fmt.Sprintf("replica: ReplicateTx(7) in flight (value appended), txs 1..5 replicated, TruncateUptoTx(5), txs 6 and 7 commit: ReadValue(tx 7) = %q, %v", v, err)
 	}
 	return false, ""
 }
@@ -310,7 +353,8 @@ func TestProbesOnly(t *testing.T) {
 	p, d = probeDeadlock()
 	t.Logf("deadlock: %v %s (%v)", p, d, time.Since(t0))
 	t0 = time.Now()
-	p, d = probeReadAt()
-	t.Logf("readat: %v %s (%v)", p, d, time.Since(t0))
+	p, d = probeInflight()
+	t.Logf("inflight: %v %s (%v)", p, d, time.Since(t0))
+
 	_ = context.Background
 }
